@@ -508,12 +508,43 @@ def in_class_K1(v):
 
 # ---------------------------------------------------------------------------------------------
 
-def run_jobs(jobs, exe):
-    res = xsltrun.run(jobs, exe=exe)
-    lost = [j for j in jobs if res[j["id"]][0] == "crash"]
-    for j in lost[:40]:
-        res.update(xsltrun.run([j], exe=exe))
-    return res
+def run_jobs(jobs, exe, chunk=30):
+    """run the transformations in batches (one driver process per batch; jobs with the option
+    'reuse' share one XalanTransformer with the jobs before them in the batch).  A crash loses the
+    rest of its batch: the lost jobs are rerun one per process.  Returns (results, sequences):
+    sequences = batches whose first lost job does not crash alone (history-dependent crash)."""
+    from concurrent.futures import ThreadPoolExecutor
+    chunks = [jobs[i:i + chunk] for i in range(0, len(jobs), chunk)]
+
+    def run_chunk(ch):
+        rc, res, raw = core.run_lines(exe, "\n".join(xsltrun.line_of(j) for j in ch) + "\n", sep="|")
+        return res
+
+    def decode(r):
+        if r is None:
+            return ("crash",)
+        f = r.split("|")
+        if f[0] == "ok":
+            return ("ok", bytes.fromhex(f[1]) if len(f) > 1 else b"")
+        return ("err", int(f[1]), bytes.fromhex(f[2]).decode("utf-8", "replace") if len(f) > 2 else "")
+    res, seqs = {}, []
+    with ThreadPoolExecutor(core.NPROC) as ex:
+        outs = list(ex.map(run_chunk, chunks))
+        lost, firsts = [], []
+        for ch, o in zip(chunks, outs):
+            missing = [j for j in ch if j["id"] not in o]
+            if missing:
+                firsts.append((ch[:ch.index(missing[0]) + 1], missing[0]))
+                lost += missing
+            for j in ch:
+                res[j["id"]] = decode(o.get(j["id"]))
+        alone = list(ex.map(lambda j: run_chunk([j]), lost))
+    for j, o in zip(lost, alone):
+        res[j["id"]] = decode(o.get(j["id"]))
+    for seq, first in firsts:
+        if res[first["id"]][0] != "crash":
+            seqs.append(seq)
+    return res, seqs
 
 
 def replay_text(c, job, what):
@@ -526,11 +557,11 @@ def evaluate(ctx, cases, exe, model):
     corr, orc = [], []
     jobs = []
     for c in cases:
-        c["opts"] = "xercesdom" if c["xerces"] else ""
+        c["opts"] = "xercesdom" if c["xerces"] else ("reuse" if c["cls"] == "reuse" else "")
         c["src"] = serialize(c["docs"][0])
         c["jobs"] = {"p1": {"id": c["id"] + ".1", "sheet": pass1_sheet(c), "source": c["src"], "files": files_of(c, False), "opts": c["opts"]}}
         jobs.append(c["jobs"]["p1"])
-    res = run_jobs(jobs, exe)
+    res, crashed = run_jobs(jobs, exe)
     jobs = []
     for c in cases:
         c["maps"] = [node_maps(d) for d in c["docs"]]
@@ -550,7 +581,11 @@ def evaluate(ctx, cases, exe, model):
             c["jobs"]["o%d" % oi] = {"id": c["id"] + ".o%d" % oi, "sheet": pass2_sheet(c, order), "source": c["src"],
                                      "files": files_of(c, True), "opts": c["opts"]}
             jobs.append(c["jobs"]["o%d" % oi])
-    res.update(run_jobs(jobs, exe))
+    res2, crashed2 = run_jobs(jobs, exe)
+    res.update(res2)
+    for seq in (crashed + crashed2)[:3]:
+        orc.append({"what": "the driver process crashed at transformation %s although that transformation alone does not crash: the crash depends on the %d transformations run before it in the same process (key tables kept across transformations?)" % (seq[-1]["id"], len(seq) - 1),
+                    "known": None, "replay": json.dumps({"what": "crash after a sequence of transformations", "sequence": seq}, indent=1)})
     lines, expect = [], {}
     for c in cases:
         if c["tables"] is None:
@@ -738,7 +773,7 @@ def run_corpus(ctx, exe, known):
         ctx.known_finding("%s %s" % (k, known[k]["what"]))
 
 
-CLASSES = ["plain", "plain", "plain", "samename", "attrs", "attrs", "deep", "emptyvals", "xercesdom", "unknown"]
+CLASSES = ["plain", "plain", "reuse", "samename", "attrs", "attrs", "deep", "emptyvals", "xercesdom", "unknown", "reuse", "plain"]
 
 
 def make_cases(ctx, n, tag):
@@ -817,6 +852,11 @@ def replay(ctx, path):
     txt = open(path).read()
     i = 0 if txt.startswith("{") else txt.index("\n{") + 1
     e, _ = json.JSONDecoder().raw_decode(txt[i:])
+    if "sequence" in e:
+        rc, res, raw = core.run_lines(exe, "\n".join(xsltrun.line_of(j) for j in e["sequence"]) + "\n", sep="|")
+        lost = [j["id"] for j in e["sequence"] if j["id"] not in res]
+        print("driver exit status %s; transformations without a result: %s" % (rc, lost))
+        return 1 if lost else 0
     res = xsltrun.run([{"id": "replay", "sheet": e["sheet"], "source": e["source"], "files": e.get("files", {}), "opts": e.get("opts", "")}], exe=exe)
     r = res["replay"]
     print(e.get("what", ""))
